@@ -10,6 +10,7 @@ from fractions import Fraction
 import numpy as np
 
 import common
+import systems
 
 LEVEL = "proof"
 EPS_NP = Fraction(1e-10)
@@ -249,12 +250,49 @@ def run(ctx):
                 if e > err + 1e-12:
                     spec_fail.append(("pyscf_interface.generate_integrals", "Cholesky vectors produced for a requested threshold reproduce the ERI matrix to within that threshold",
                                       {"atom": atom, "basis": basis, "chol_cut": err, "got_error": float(e), "nvec": int(Lg.shape[0])}))
+        # the call site of the JAX routine: the 2-RDM entry point of the sampler re-factorises the two-body operator it is handed; the
+        # vectors it then works with must reproduce that operator (as many vectors as the Hamiltonian carries, also when that is more
+        # than norb (norb - 1) / 2)
+        try:
+            import jax
+            import jax.numpy as jnp
+            from ad_afqmc import sampling as _sampling, linalg_utils as _lu
+            for norb2, ne2, nch in ((2, (1, 1), 3), (3, (1, 1), 5)):
+                sd = rng.randrange(1 << 30)
+                S = systems.make_system(random.Random(sd), "rhf", "restricted", norb=norb2, nelec=ne2, nchol=nch, n_walkers=2, dt=0.01, seed=sd)
+                chol = np.array(S["ham_data"]["chol"]).reshape(nch, -1)
+                eri = jnp.array(chol.T @ chol).reshape(norb2, norb2, norb2, norb2)
+                rec = []
+                orig = _lu.modified_cholesky
+
+                def spy(mat, *a, **k):
+                    out = orig(mat, *a, **k)
+                    rec.append((np.array(mat), np.array(out)))
+                    return out
+                _lu.modified_cholesky = spy
+                try:
+                    with jax.disable_jit():
+                        smp2 = _sampling.sampler(n_prop_steps=1, n_ene_blocks=1, n_sr_blocks=1, n_blocks=1)
+                        smp2.propagate_phaseless_ad_1(S["ham"], dict(S["ham_data"]), 1.0, eri, S["prop"], systems.copy_prop_data(S["prop_data"]), S["trial"], dict(S["wave_data"]))
+                finally:
+                    _lu.modified_cholesky = orig
+                mol_cases += 1
+                if not rec:
+                    spec_fail.append(("sampler.propagate_phaseless_ad_1", "the 2-RDM entry point factorises the operator it is handed", {"norb": norb2, "nchol": nch}))
+                for mat, L in rec:
+                    L = L.reshape(L.shape[0], -1)
+                    e = float(np.abs(L.T @ L - mat).max())
+                    if not e <= 1e-8:
+                        spec_fail.append(("sampler.propagate_phaseless_ad_1", "Cholesky vectors used by the 2-RDM entry point reproduce the two-body operator it was handed",
+                                          {"norb": norb2, "nchol_of_hamiltonian": nch, "vectors_returned": int(L.shape[0]), "reconstruction_error": e, "seed": sd}))
+                        break
+        except Exception as ex:
+            spec_fail.append(("sampler.propagate_phaseless_ad_1", "2-RDM entry point runs", {"error": repr(ex)[:300]}))
         # the user-supplied-integrals route of prep_afqmc: the same two-electron integrals handed over in each layout pyscf produces
         # (4-index, 4-fold packed matrix, 8-fold packed vector, full norb^2 x norb^2 matrix) must be written as Cholesky vectors
         # that reproduce them to within chol_cut
         import contextlib, io, tempfile
         import molecules as M
-        import systems
         from pyscf import ao2mo
         for nsite, ne in ((3, (2, 1)), (4, (2, 2))):
             rl = random.Random(rng.randrange(1 << 30))
